@@ -19,7 +19,15 @@ THEOREMS = [
     'AbacusVerif.Catalog.zipper_index_rule',
     'AbacusVerif.Catalog.table_compaction',
     'AbacusVerif.Catalog.uint32_sum_wraps',
+    # Props/C01LinkC04.lean: the decode parameter instantiated with the C04 (bitpacked) model
+    'AbacusVerif.ReaderLink.subsample_values_are_c04_decode',
+    'AbacusVerif.ReaderLink.passthrough_is_identity',
+    'AbacusVerif.ReaderLink.unpacked_equals_decode_of_passthrough',
+    'AbacusVerif.ReaderLink.decodeCol_is_c04_slot',
+    'AbacusVerif.ReaderLink.column_is_c04_kernel_writes',
+    'AbacusVerif.ReaderLink.load_readerOpts',
 ]
+LEAN_MODULES = ['AbacusVerif.Props.C01', 'AbacusVerif.Props.C01LinkC04']
 DRIVER = 'drv_c01'
 RULE = ('one evaluation = one load of a synthetic catalog tree by the real CompaSOHaloCatalog, checked (a) by the '
         'truth oracle (every returned row\'s slice of every subsample column against the particle records catgen '
